@@ -13,7 +13,10 @@ SPEC = {'level': 'exploration',
                         'ref-destroyed-while-staging': 0.15, 'ref-moved-while-staging': 0.2, 'main/staging-diagrams-checked': 0.2, 'skip-walk': 0.15,
                         'max-live:25-64': 0.15, 'max-live:>64': 0.05},
                 rule='op sequences on TxGraph vs naive model; non-trivial = staging + oversized observed + effective Trim'),
-            gen('vh_c25', 'up_txgraph', 5000, 100000, rule='upstream txgraph simulation fuzz target, supplementary')]}
+            gen('vh_c25', 'up_txgraph', 5000, 100000, rule='upstream txgraph simulation fuzz target, supplementary'),
+        # coverage-guided libFuzzer campaign on the same target (thorough tier only; fz tree = g++ trace-pc + covshim)
+        fuzz('vh_c25', 'c25_txgraph', 300, max_len=2600),
+    ]}
 
 META = {'level_text': 'Stateful generated search: operation sequences (up to 2000 operations, up to 96 live transactions, cluster limits 1..64) over the whole public '
                'TxGraph interface, including staging, Ref destruction and moves while staging exists, oversize and Trim, concurrent BlockBuilders, executed in '
